@@ -552,12 +552,13 @@ class Program:
                 else:
                     members[nm] = self.fold(ci.module, st.value)
         attrs: Dict[str, Any] = {}
-        new = ci.methods.get("__new__")
+        new = ci.find_method("__new__")         # (own or inherited from a member-less base enum)
         init_idiom = False
-        if new is None and ci.methods.get("__init__") is not None and len(ci.methods["__init__"].params) > 1:
+        init_m = ci.find_method("__init__")
+        if new is None and init_m is not None and len(init_m.params) > 1:
             # the documented alternative: the enum machinery creates the member (its _value_ is the whole tuple) and
             # calls __init__(self, *items): attributes set there are read the same way as those set in __new__
-            new = ci.methods["__init__"]
+            new = init_m
             init_idiom = True
         if new is None:
             attrs["value"] = "whole"
@@ -596,7 +597,10 @@ class Program:
                 attrs["value"] = "whole"
             if init_idiom and "_value_" not in slot:
                 attrs["_value_"] = "whole"
-        for pname, pf in ci.properties.items():
+        props_all: Dict[str, Any] = {}
+        for k_ in reversed(ci.mro()):
+            props_all.update(k_.properties)
+        for pname, pf in props_all.items():
             body = [s for s in pf.node.body if not (isinstance(s, ast.Expr) and isinstance(s.value, ast.Constant))]
             if (
                 len(body) == 1
